@@ -14,6 +14,7 @@ func init() {
 	vRegister("H_C03_sign_iff", H_C03_sign_iff)
 	vRegister("H_C03_countersignature_iff", H_C03_countersignature_iff)
 	vRegister("H_C03_kinds_separated", H_C03_kinds_separated)
+	vRegister("H_C03_transplant", H_C03_transplant)
 }
 
 // refVerifier: a built-in verifier and the primitive's verdict on (ToBeSigned, signature) stated independently
@@ -21,6 +22,7 @@ type refVerifier struct {
 	alg     Algorithm
 	ver     Verifier
 	verdict func(tbs, sig []byte) bool
+	sign    func(tbs []byte) []byte // a genuine signature by the holder of the private key
 }
 
 func mkRefVerifier(name string) *refVerifier {
@@ -43,6 +45,10 @@ func mkRefVerifier(name string) *refVerifier {
 			}
 			return vEcdsaVerdict(&key.PublicKey, vHash(h, tbs), new(big.Int).SetBytes(sig[:n]), new(big.Int).SetBytes(sig[n:]))
 		}
+		rv.sign = func(tbs []byte) []byte {
+			r, s := vEcdsaSign(key, vHash(h, tbs))
+			return append(refFixed(r, n), refFixed(s, n)...)
+		}
 	case 3:
 		rv.alg = AlgorithmEdDSA
 		key := vEdKey(name + ".key")
@@ -51,6 +57,7 @@ func mkRefVerifier(name string) *refVerifier {
 		vAssume(err == nil)
 		rv.ver = v
 		rv.verdict = func(tbs, sig []byte) bool { return vEdVerdict(pub, tbs, sig) }
+		rv.sign = func(tbs []byte) []byte { return vEdSign(key, tbs) }
 	default:
 		rv.alg = []Algorithm{AlgorithmPS256, AlgorithmPS384, AlgorithmPS512}[kind-4]
 		key := vRSAKeyValid(name + ".key")
@@ -59,6 +66,7 @@ func mkRefVerifier(name string) *refVerifier {
 		rv.ver = v
 		h := refHashOfAlg(int64(rv.alg))
 		rv.verdict = func(tbs, sig []byte) bool { return vRSAVerdict(&key.PublicKey, h, vHash(h, tbs), sig) }
+		rv.sign = func(tbs []byte) []byte { return vRSAPSSSign(key, h, vHash(h, tbs)) }
 	}
 	return rv
 }
@@ -161,7 +169,7 @@ func H_C03_sign_iff() {
 
 // a countersignature over a decoded COSE_Sign1 parent
 func H_C03_countersignature_iff() {
-	c07Start(7)
+	c07Start(6) // quick: the verifier's curve is not varied here (sign1 / sign harnesses do)
 	rv := mkRefVerifier("v")
 	pairs, present, matches := c03AlgPairs("cs", rv)
 	cprot, ccontent := c03Protected("cs", pairs)
@@ -213,6 +221,72 @@ func H_C03_kinds_separated() {
 		for j := i + 1; j < len(all); j++ {
 			vAssert("kinds: structures of different kinds never coincide", !vRopeEq(all[i], all[j]))
 		}
+	}
+	vReach("end")
+}
+
+// genuine signatures made over a *variant* of the message (one structural edit away):
+// the verdict on the received message is still exactly the primitive's verdict over
+// the RFC structure of the received bytes - a library that signs / verifies over
+// anything else accepts (or rejects) what it must not, and natively the genuine
+// signature makes that observable.
+func H_C03_transplant() {
+	c07Start(8)
+	rv := mkRefVerifier("v")
+	// signer-level protected header {1: alg} in any encoding
+	sprot, scontent := c03Protected("s0", c07AlgEntry("s0", rv.alg))
+	// the received body protected header: h'' or h'a0'
+	bodyForm := vChoose("body.form", 2)
+	bodyContent := []byte{}
+	if bodyForm == 1 {
+		bodyContent = vSer(nnMap(nil, vWidth("body.emw", 0)))
+	}
+	bodyProt := nnBstr(bodyContent, vWidth("body.pbw", uint64(len(bodyContent))))
+	payload := vBlob("payload")
+	ext := c07External()
+	// what the signature was really made over
+	edit := c07Pick("edit", 6, 7)
+	sBody, sPayload, sExt, sCtx := bodyContent, payload, ext, "Signature"
+	sProts := [][]byte{nil, scontent}
+	switch edit {
+	case 1: // the other spelling of the empty body protected header
+		if bodyForm == 1 {
+			sBody = []byte{}
+		} else {
+			sBody = []byte{0xa0}
+		}
+	case 2:
+		sPayload = vBlob("other.payload")
+	case 3:
+		sExt = vBlobN("other.ext", 1, 100)
+	case 4: // a COSE_Sign1 signature replayed inside a COSE_Sign
+		sCtx = "Signature1"
+	case 5: // a different unprotected bucket only: must not matter (handled below)
+	}
+	sProts[0] = sBody
+	var tbsSigned []byte
+	if sCtx == "Signature1" {
+		tbsSigned = refSigStructure("Signature1", [][]byte{scontent}, sExt, sPayload, nil)
+	} else {
+		tbsSigned = refSigStructure("Signature", sProts, sExt, sPayload, nil)
+	}
+	sig := rv.sign(tbsSigned)
+	un := nnMap(nil, vWidth("s0.uw", 0))
+	if edit == 5 {
+		un = mkWireHeaderMap("s0.u", 1)
+	}
+	s0 := nnArray([]*vNodeT{sprot, un, nnBstr(sig, vWidth("sigw", uint64(len(sig))))}, 0)
+	var m SignMessage
+	vAssume(m.UnmarshalCBOR(vSer(nnTag(98, nnArray([]*vNodeT{bodyProt, nnMap(nil, 0), nnBstr(payload, vWidth("plw", uint64(len(payload)))), nnArray([]*vNodeT{s0}, 0)}, 0), 1))) == nil)
+	res := m.Verify(ext, rv.ver)
+	tbsReceived := refSigStructure("Signature", [][]byte{bodyContent, scontent}, ext, payload, nil)
+	if rv.verdict(tbsReceived, sig) {
+		vAssert("transplant: valid over the received bytes => nil", res == nil)
+	} else {
+		vAssert("transplant: a signature made over anything but the received bytes' structure is an error", res != nil)
+	}
+	if edit == 0 || edit == 5 {
+		vAssert("transplant: the genuine signature of this very message verifies (unprotected headers do not matter)", res == nil)
 	}
 	vReach("end")
 }
